@@ -12,7 +12,7 @@ def MAX_NUMBER_OF_GLOBALS : Nat := 512
 def CONST_MAX_MEMORY_SIZE_IN_PAGES : Nat := 64
 def MAX_STACK_SIZE : Nat := 1024
 def LATEST_VERSION : Nat := 2
-def HOST_IMPORTS : List (String × String × Nat) := [("actor_emit_event", "iiiii.", 0), ("actor_get_blueprint_name", ".I", 0), ("actor_get_object_id", "i.I", 0), ("actor_get_package_address", ".I", 0), ("actor_open_field", "iii.i", 0), ("address_allocate", "iiii.I", 0), ("address_get_reservation_address", "ii.I", 0), ("blueprint_call", "iiiiiiii.I", 0), ("buffer_consume", "ii.", 0), ("costing_get_execution_cost_unit_limit", ".i", 0), ("costing_get_execution_cost_unit_price", ".I", 0), ("costing_get_fee_balance", ".I", 0), ("costing_get_finalization_cost_unit_limit", ".i", 0), ("costing_get_finalization_cost_unit_price", ".I", 0), ("costing_get_tip_percentage", ".i", 0), ("costing_get_usd_price", ".I", 0), ("crypto_utils_blake2b_256_hash", "ii.I", 2), ("crypto_utils_bls12381_g2_signature_aggregate", "ii.I", 1), ("crypto_utils_bls12381_v1_aggregate_verify", "iiii.i", 1), ("crypto_utils_bls12381_v1_fast_aggregate_verify", "iiiiii.i", 1), ("crypto_utils_bls12381_v1_verify", "iiiiii.i", 1), ("crypto_utils_ed25519_verify", "iiiiii.i", 2), ("crypto_utils_keccak256_hash", "ii.I", 1), ("crypto_utils_secp256k1_ecdsa_verify", "iiiiii.i", 2), ("crypto_utils_secp256k1_ecdsa_verify_and_key_recover", "iiii.I", 2), ("crypto_utils_secp256k1_ecdsa_verify_and_key_recover_uncompressed", "iiii.I", 2), ("field_entry_close", "i.", 0), ("field_entry_read", "i.I", 0), ("field_entry_write", "iii.", 0), ("kv_entry_close", "i.", 0), ("kv_entry_read", "i.I", 0), ("kv_entry_remove", "i.I", 0), ("kv_entry_write", "iii.", 0), ("kv_store_new", "ii.I", 0), ("kv_store_open_entry", "iiiii.i", 0), ("kv_store_remove_entry", "iiii.I", 0), ("object_call", "iiiiii.I", 0), ("object_call_direct", "iiiiii.I", 0), ("object_call_module", "iiiiiii.I", 0), ("object_get_blueprint_id", "ii.I", 0), ("object_get_outer_object", "ii.I", 0), ("object_globalize", "iiiiii.I", 0), ("object_instance_of", "iiiiii.i", 0), ("object_new", "iiii.I", 0), ("sys_bech32_encode_address", "ii.I", 0), ("sys_generate_ruid", ".I", 0), ("sys_get_transaction_hash", ".I", 0), ("sys_log", "iiii.", 0), ("sys_panic", "ii.", 0)]
+def HOST_IMPORTS : List (String × List Nat × List Nat × Nat) := [("actor_emit_event", [0, 0, 0, 0, 0], [], 0), ("actor_get_blueprint_name", [], [1], 0), ("actor_get_object_id", [0], [1], 0), ("actor_get_package_address", [], [1], 0), ("actor_open_field", [0, 0, 0], [0], 0), ("address_allocate", [0, 0, 0, 0], [1], 0), ("address_get_reservation_address", [0, 0], [1], 0), ("blueprint_call", [0, 0, 0, 0, 0, 0, 0, 0], [1], 0), ("buffer_consume", [0, 0], [], 0), ("costing_get_execution_cost_unit_limit", [], [0], 0), ("costing_get_execution_cost_unit_price", [], [1], 0), ("costing_get_fee_balance", [], [1], 0), ("costing_get_finalization_cost_unit_limit", [], [0], 0), ("costing_get_finalization_cost_unit_price", [], [1], 0), ("costing_get_tip_percentage", [], [0], 0), ("costing_get_usd_price", [], [1], 0), ("crypto_utils_blake2b_256_hash", [0, 0], [1], 2), ("crypto_utils_bls12381_g2_signature_aggregate", [0, 0], [1], 1), ("crypto_utils_bls12381_v1_aggregate_verify", [0, 0, 0, 0], [0], 1), ("crypto_utils_bls12381_v1_fast_aggregate_verify", [0, 0, 0, 0, 0, 0], [0], 1), ("crypto_utils_bls12381_v1_verify", [0, 0, 0, 0, 0, 0], [0], 1), ("crypto_utils_ed25519_verify", [0, 0, 0, 0, 0, 0], [0], 2), ("crypto_utils_keccak256_hash", [0, 0], [1], 1), ("crypto_utils_secp256k1_ecdsa_verify", [0, 0, 0, 0, 0, 0], [0], 2), ("crypto_utils_secp256k1_ecdsa_verify_and_key_recover", [0, 0, 0, 0], [1], 2), ("crypto_utils_secp256k1_ecdsa_verify_and_key_recover_uncompressed", [0, 0, 0, 0], [1], 2), ("field_entry_close", [0], [], 0), ("field_entry_read", [0], [1], 0), ("field_entry_write", [0, 0, 0], [], 0), ("kv_entry_close", [0], [], 0), ("kv_entry_read", [0], [1], 0), ("kv_entry_remove", [0], [1], 0), ("kv_entry_write", [0, 0, 0], [], 0), ("kv_store_new", [0, 0], [1], 0), ("kv_store_open_entry", [0, 0, 0, 0, 0], [0], 0), ("kv_store_remove_entry", [0, 0, 0, 0], [1], 0), ("object_call", [0, 0, 0, 0, 0, 0], [1], 0), ("object_call_direct", [0, 0, 0, 0, 0, 0], [1], 0), ("object_call_module", [0, 0, 0, 0, 0, 0, 0], [1], 0), ("object_get_blueprint_id", [0, 0], [1], 0), ("object_get_outer_object", [0, 0], [1], 0), ("object_globalize", [0, 0, 0, 0, 0, 0], [1], 0), ("object_instance_of", [0, 0, 0, 0, 0, 0], [0], 0), ("object_new", [0, 0, 0, 0], [1], 0), ("sys_bech32_encode_address", [0, 0], [1], 0), ("sys_generate_ruid", [], [1], 0), ("sys_get_transaction_hash", [], [1], 0), ("sys_log", [0, 0, 0, 0], [], 0), ("sys_panic", [0, 0], [], 0)]
 def NOT_IMPORTABLE : List String := ["gas", "memory", "test_host_check_memory_is_clean", "test_host_read_memory", "test_host_write_memory"]
 
 end Radix.Generated.C45
